@@ -128,6 +128,7 @@ def aggregate(prop, mod, tier, seed, results, reach, totals, lost, t0):
     out_lines = []
     rdir = os.path.join(ROOT, "replays", prop)
     replay_paths = []
+    shutil.rmtree(rdir, ignore_errors=True)
     if unknown_findings:
         os.makedirs(rdir, exist_ok=True)
         for r, unk in unknown_findings[:25]:
